@@ -199,6 +199,9 @@ Outcome roundtrip(Json const& plan)
     if (v == "rgb16") return RoundTrip<Tag, gil::rgb16_image_t, true>::run(plan, "png", info);
     if (v == "rgba8") return RoundTrip<Tag, gil::rgba8_image_t, true>::run(plan, "png", info);
     if (v == "rgba16") return RoundTrip<Tag, gil::rgba16_image_t, true>::run(plan, "png", info);
+    if (v == "bgr8") return RoundTrip<Tag, gil::bgr8_image_t, true>::run(plan, "png", info);
+    if (v == "bgra8") return RoundTrip<Tag, gil::bgra8_image_t, true>::run(plan, "png", info);
+    if (v == "argb8") return RoundTrip<Tag, gil::argb8_image_t, true>::run(plan, "png", info);
     Outcome o; o.cls = "skipped:type"; return o;
 }
 
@@ -241,7 +244,7 @@ Format make_format()
     f.native_types = {"gray1", "gray2", "gray4", "gray8", "gray16", "ga8", "ga16", "rgb8", "rgb16", "rgba8", "rgba16"};
     f.convert_types = {"gray8", "rgb8", "rgba8", "rgb16"};
     f.devices = {"FILE", "istream", "name"};
-    f.write_types = {"gray1", "gray2", "gray4", "gray8", "gray16", "ga8", "ga16", "rgb8", "rgb16", "rgba8", "rgba16"};
+    f.write_types = {"gray1", "gray2", "gray4", "gray8", "gray16", "ga8", "ga16", "rgb8", "rgb16", "rgba8", "rgba16", "bgr8", "bgra8", "argb8"};
     f.write_options = {"z1", "z9"}; // ADAM7 is not offered: the writer emits one pass only and libpng then aborts in png_write_end
     f.roundtrip = roundtrip; f.paths = paths;
     f.make = make; f.read = read; f.fields = fields; f.declared_pixels = declared;
